@@ -226,9 +226,46 @@ func caseSample(c *sim.Case) func() any {
 	}
 }
 
+// regressCases loads saved replay files of this property (earlier shrunk failures and
+// false alarms); they run first in every tier.
+func (p *HistProp) regressCases() []*sim.Case {
+	dir := filepath.Join(os.Getenv("VERIF_VERIF"), "harness", "props", "testdata", "regress")
+	files, _ := filepath.Glob(filepath.Join(dir, p.ID+"-*.json"))
+	sort.Strings(files)
+	var out []*sim.Case
+	for _, f := range files {
+		bz, err := os.ReadFile(f)
+		if err != nil {
+			continue
+		}
+		var r Replay
+		if json.Unmarshal(bz, &r) != nil || r.Kind != "history" {
+			continue
+		}
+		var c sim.Case
+		if json.Unmarshal(r.Case, &c) == nil {
+			out = append(out, &c)
+		}
+	}
+	return out
+}
+
 func (p *HistProp) Run(t *testing.T) {
 	st := newStats(p.ID)
 	defer st.Write()
+	for i, c := range p.regressCases() {
+		w, chk, v, err := p.RunCase(c)
+		if err != nil {
+			t.Fatalf("HARNESS regress %d: %v", i, err)
+		}
+		if v != nil {
+			c.Finalize()
+			saveFail(p.ID, "history", c, v)
+			t.Fatalf("regression case %d: %s", i, v)
+		}
+		nt, cls := chk.Summary(w)
+		st.Case(nt, nil, append(cls, "regress")...)
+	}
 	if p.Prelude != nil {
 		for i, c := range p.Prelude() {
 			c.Property = p.ID
